@@ -110,12 +110,18 @@ def run_case(case):
     kindG = case["G"]
     G = None
     Gm = None
+    def wellcond(m):
+        # regularisation operators with singular values in [0.5, 1.5]: ADMM / PDHG budgets
+        # are stated for cond(A^H A + lamda I + rho G^H G) <= 1e2
+        U, _ = np.linalg.qr(crandn(rng, [m, m], dt))
+        V, _ = np.linalg.qr(crandn(rng, [n, n], dt))
+        return (U[:, :n] * rng.uniform(0.5, 1.5, n)) @ V.conj().T
     if kindG == "square":
-        Gq = crandn(rng, [n, n], dt) / np.sqrt(n)
+        Gq = wellcond(n)
         G = L.MatMul(xshape, Gq) if len(xshape) == 2 else L.Reshape(xshape, [n, 1]) * \
             L.MatMul([n, 1], Gq) * L.Reshape([n, 1], xshape)
     elif kindG == "tall":
-        Gq = crandn(rng, [n + 2, n], dt) / np.sqrt(n)
+        Gq = wellcond(n + 2)
         G = L.MatMul(xshape, Gq) if len(xshape) == 2 else \
             L.MatMul([n, 1], Gq) * L.Reshape([n, 1], xshape)
     elif kindG == "fd":
@@ -149,8 +155,8 @@ def run_case(case):
                              case["tau"], case["rho"], "x0" if case["x0"] else "-"]))
     wit = dict(case)
     # ---- certified optimum of the documented objective
-    yv = y.ravel()
-    zv = None if z is None else z.ravel()
+    yv = y.ravel().copy()          # copies: the App may modify the caller's arrays
+    zv = None if z is None else z.ravel().copy()
     # minimiser must be unique / problem well posed: A^H A + lam I > 0
     Hmat = Am.conj().T @ Am + lam * np.eye(n)
     if np.linalg.cond(Hmat) > 1e3:
